@@ -843,3 +843,90 @@ Proof.
     constructor. repeat constructor.
   - split; vm_compute; discriminate.
 Qed.
+
+(* ================================================================ routing is non-blocking per function *)
+Lemma obs_of_app f a b : obs_of f (a ++ b) = obs_of f a ++ obs_of f b.
+Proof. apply filter_app. Qed.
+
+Lemma r_step_irrelevant : forall f st e, rel f e = false ->
+  fst (r_step st e) f = st f /\ obs_of f (snd (r_step st e)) = [].
+Proof.
+  intros f st [[p|x]|g] H; cbn [rel] in H; cbn [r_step].
+  - destruct (st (c_fn p)) as [q|]; cbn [fst snd]; split; auto.
+    unfold upd. destruct (f =? c_fn p) eqn:E; [lia|reflexivity].
+  - cbn. auto.
+  - assert (Hf : (f =? g) = false) by lia.
+    destruct (st g) as [[|p q]|]; cbn [fst snd obs_of filter]; unfold upd; rewrite Hf, ?H; auto.
+Qed.
+
+Lemma r_step_relevant : forall f st st' e, rel f e = true -> st f = st' f ->
+  fst (r_step st e) f = fst (r_step st' e) f /\ snd (r_step st e) = snd (r_step st' e) /\
+  obs_of f (snd (r_step st e)) = snd (r_step st e).
+Proof.
+  intros f st st' [[p|x]|g] H E; cbn [rel] in H; try discriminate; cbn [r_step].
+  - assert (c_fn p = f) by lia. subst f. rewrite <- E.
+    destruct (st (c_fn p)) as [q|] eqn:Eq; cbn [fst snd]; repeat split; auto;
+      try (unfold upd; now rewrite Z.eqb_refl); congruence.
+  - assert (g = f) by lia. subst g. rewrite <- E.
+    destruct (st f) as [[|p q]|] eqn:Eq; cbn [fst snd obs_of filter]; unfold upd; rewrite ?Z.eqb_refl; auto.
+Qed.
+
+Lemma router_independent_gen : forall f evs st st', st f = st' f ->
+  obs_of f (snd (r_run st evs)) = obs_of f (snd (r_run st' (filter (rel f) evs))) /\
+  fst (r_run st evs) f = fst (r_run st' (filter (rel f) evs)) f.
+Proof.
+  intros f. induction evs as [|e evs IH]; intros st st' E; cbn [filter r_run].
+  - cbn. auto.
+  - destruct (rel f e) eqn:R.
+    + cbn [r_run]. destruct (r_step_relevant f st st' e R E) as (H1 & H2 & H3).
+      destruct (r_step st e) as [st1 o1]. destruct (r_step st' e) as [st1' o1']. cbn [fst snd] in *. subst o1'.
+      specialize (IH st1 st1' H1).
+      destruct (r_run st1 evs) as [st2 o2]. destruct (r_run st1' (filter (rel f) evs)) as [st2' o2']. cbn [fst snd] in *.
+      rewrite !obs_of_app. destruct IH as [-> ->]. auto.
+    + destruct (r_step_irrelevant f st e R) as (H1 & H2).
+      destruct (r_step st e) as [st1 o1]. cbn [fst snd] in *.
+      specialize (IH st1 st' (eq_trans H1 E)).
+      destruct (r_run st1 evs) as [st2 o2]. cbn [fst snd] in *.
+      rewrite obs_of_app, H2. exact IH.
+Qed.
+
+(* what receivers of f observe, and what is left queued for f, depend only on the f-events: arrivals of other
+   functions, and whether anybody reads them, make no difference *)
+Lemma router_independent : forall evs f,
+  obs_of f (snd (r_run r_init evs)) = obs_of f (snd (r_run r_init (filter (rel f) evs))) /\
+  fst (r_run r_init evs) f = fst (r_run r_init (filter (rel f) evs)) f.
+Proof. intros. now apply router_independent_gen. Qed.
+
+(* the router reads on, whatever the receivers do: after k iterations the first k frames are consumed *)
+Lemma sys_run_consumes : forall script ps s st, Forall wf_cpx ps -> concat s = concat (map frame ps) ->
+  concat (fst (fst (sys_run s st script))) = concat (map frame (skipn (count_pump script) ps)).
+Proof.
+  induction script as [|[|f] script IH]; intros ps s st Hwf Hc; cbn [sys_run count_pump].
+  - cbn. exact Hc.
+  - destruct ps as [|p ps].
+    + cbn [map concat] in Hc. rewrite (read_packet_end s Hc).
+      destruct (r_step st (Arrive (Exc EndOfStream))) as [st1 o1].
+      specialize (IH [] [] st1 Hwf eq_refl). destruct (sys_run [] st1 script) as [[s2 st2] o2].
+      cbn [fst] in *. rewrite IH. now rewrite !skipn_nil.
+    + inversion Hwf as [|? ? Hp Hps]; subst. cbn [map concat] in Hc.
+      destruct (read_packet_frame p _ s Hp Hc) as (s1 & H1 & H2). rewrite H1.
+      destruct (r_step st (Arrive (Ok p))) as [st1 o1].
+      specialize (IH ps s1 st1 Hps H2). destruct (sys_run s1 st1 script) as [[s2 st2] o2].
+      cbn [fst skipn] in *. exact IH.
+  - destruct (r_step st (Recv f)) as [st1 o1].
+    specialize (IH ps s st1 Hwf Hc). destruct (sys_run s st1 script) as [[s2 st2] o2]. cbn [fst] in *. exact IH.
+Qed.
+
+Lemma sys_run_consumes_all : forall script ps s st, Forall wf_cpx ps -> concat s = concat (map frame ps) ->
+  (length ps <= count_pump script)%nat -> concat (fst (fst (sys_run s st script))) = [].
+Proof.
+  intros script ps s st Hwf Hc Hn. rewrite (sys_run_consumes script ps s st Hwf Hc).
+  rewrite skipn_all2 by assumption. reflexivity.
+Qed.
+
+Lemma router_consumes : forall script ps s st, Forall wf_cpx ps -> concat s = concat (map frame ps) ->
+  concat (fst (fst (sys_run s st script))) = concat (map frame (skipn (count_pump script) ps)) /\
+  ((length ps <= count_pump script)%nat -> concat (fst (fst (sys_run s st script))) = []).
+Proof.
+  intros script ps s st Hwf Hc. split; [now apply sys_run_consumes|now apply sys_run_consumes_all].
+Qed.
